@@ -487,4 +487,13 @@ def gen(rng, tier):
                 case["label_offset"] = 301000
             case["pts"] = [[rng.randint(-2, len(case["xlabels"]) + 1), rng.randint(0, 5)] for _p in range(npts)]
         case["shape"] = rng.choice({1: [[1]], 4: [[4], [2, 2]], 6: [[6], [2, 3]], 8: [[8], [2, 2, 2]]}[npts])
+        if _ % 4 == 2:
+            # a negative region label (any number but 0 is a label)
+            sw = lambda v: -2 if v == 4 else v
+            case["sel"] = [[sw(e[0])] + e[1:] for e in case["sel"]]
+            case["set_input"] = [sw(v) for v in case["set_input"]]
+            if "mask" in case:
+                case["mask"] = [[sw(v) for v in row] for row in case["mask"]]
+            if "xlabels" in case:
+                case["xlabels"] = [sw(v) for v in case["xlabels"]]
         yield case
